@@ -67,8 +67,22 @@ def snap_section(s):
 HELD = core.Retained(every=9)
 
 
-def check_html(src, recs, ctx, au, positions=None):
-    docase = {'lang': 'html', 'src': src, 'truth': gen_html.to_json(recs)}
+def kept_options(xml):
+    "ONE options dictionary kept by the caller for all documents, its `xml` flag switched per document; the `special` table spells out the default"
+    if 'special' not in KEPT:
+        from emmet.html_matcher.utils import default_special
+        KEPT['special'] = {k: (list(v) if v is not None else None) for k, v in default_special.items()}
+    KEPT['xml'] = xml
+    return KEPT
+
+
+KEPT = {}
+
+
+def check_html(src, recs, ctx, au, positions=None, xml=False):
+    docase = {'lang': 'html', 'src': src, 'truth': gen_html.to_json(recs), 'xml': xml}
+    options = kept_options(xml)
+    ctx.ev('html:document:xml' if xml else 'html:document')
     tags = sorted(recs, key=lambda r: r['open'][0])
     models = [tag_model(src, r) for r in tags]
     for m in models:
@@ -81,7 +95,9 @@ def check_html(src, recs, ctx, au, positions=None):
         ctx.mon('oracle:get_open_tag')
         r = core.call(au.get_open_tag, src, pos)
         inside = [t for t in tags if t['open'][0] < pos < t['open'][1]]
-        if r[0] == 'exc':
+        if xml:
+            pass        # (the helper has no XML mode: judged on the HTML documents only)
+        elif r[0] == 'exc':
             ctx.violation('exception', dict(case, fn='get_open_tag'), {'exc': list(core.exc_site(r[1]))})
         else:
             t = r[1]
@@ -103,7 +119,7 @@ def check_html(src, recs, ctx, au, positions=None):
         # ---------------- select_item_html
         for is_prev in (False, True):
             ctx.mon('oracle:select_item_html')
-            r = core.call(au.select_item_html, src, pos, is_prev)
+            r = core.call(au.select_item_html, src, pos, is_prev, options) if (xml or pos % 2) else core.call(au.select_item_html, src, pos, is_prev)
             if r[0] == 'exc':
                 ctx.violation('exception', dict(case, fn='select_item_html', prev=is_prev), {'exc': list(core.exc_site(r[1]))})
                 continue
@@ -304,9 +320,10 @@ def run_shard(desc, ctx):
     from emmet import action_utils as au
     rng = ctx.rng
     for k in range(desc['ndocs']):
-        src, recs = gen_html.gen_doc(rng, xml=False, max_depth=3) if k % 8 != 4 else gen_html.gen_doc(rng, xml=False, max_depth=rng.randint(6, 9), max_children=2, max_top=1)
+        xml = (k % 4 == 2)
+        src, recs = gen_html.gen_doc(rng, xml=xml, max_depth=3) if k % 8 != 4 else gen_html.gen_doc(rng, xml=False, max_depth=rng.randint(6, 9), max_children=2, max_top=1)
         if len(src) <= (700 if k % 8 == 4 else 500):
-            check_html(src, recs, ctx, au)
+            check_html(src, recs, ctx, au, xml=xml)
         if k % 8 == 5:
             src, recs = gen_css.gen_sheet(rng, allow_nosemi=True, max_top=1, max_depth=rng.randint(5, 8), max_items=2)
         else:
@@ -328,9 +345,12 @@ def run_shard(desc, ctx):
 
 def replay(case, ctx):
     from emmet import action_utils as au
+    if case.get('lang') == 'html':
+        # the kept options dictionary has been through documents of the other mode before
+        core.call(au.select_item_html, '<p class="a">x</p><script>1<2</script>', 1, False, kept_options(not case.get('xml', False)))
     if case.get('retained'):
         if case['lang'] == 'html':
-            check_html(case['src'], gen_html.from_json(case['truth']), ctx, au)
+            check_html(case['src'], gen_html.from_json(case['truth']), ctx, au, xml=case.get('xml', False))
         else:
             check_css(case['src'], C10.from_json(case['truth']), ctx, au)
         HELD.verify(ctx)
@@ -339,7 +359,7 @@ def replay(case, ctx):
         check_css_sanity(case['src'], ctx, au)
         return
     if case['lang'] == 'html':
-        check_html(case['src'], gen_html.from_json(case['truth']), ctx, au, positions=[case['pos']])
+        check_html(case['src'], gen_html.from_json(case['truth']), ctx, au, positions=[case['pos']], xml=case.get('xml', False))
     else:
         check_css(case['src'], C10.from_json(case['truth']), ctx, au, positions=[case['pos']])
 
